@@ -223,6 +223,7 @@ func (*treePipeline) handlePipelineErr(ctx context.Context, echs ...<-chan error
 	for i := range echs {
 		i := i
 		eg.Go(func() error {
+			verifPoint("handle.wait")
 			select {
 			case err, ok := <-echs[i]:
 				if !ok {
